@@ -336,6 +336,10 @@ def f_missing_param(tree):
                 continue     # "TYPE" alone would make the scanner read the next directive as its schema
             cp = Node(nd.kw, nd.kids, nd.body, nd.paren)
             yield "missing-" + nd.kind.lower(), "at", replace(tree, p, cp), cp.uid, cp.uid, None
+            if nd.kind in ("JSIGHT", "Title", "Version", "BaseUrl", "Protocol", "Method"):
+                # the parameter is there, but says nothing: written as an empty quoted string
+                cq = Node(nd.kw + ' ""', nd.kids, nd.body, nd.paren)
+                yield "missing-" + nd.kind.lower(), "at-empty-quoted", replace(tree, p, cq), cq.uid, cq.uid, None
 
 
 def first_segment(path):
